@@ -281,6 +281,18 @@ def build(case):
     return fa
 
 
+def ref_of_case(case):
+    """the reference automaton straight from the case record (what the caller ADDED), or None when the record does
+    not determine it (a DFA record with several start states or two successors for one state and symbol)"""
+    from vf.ref import nfa as rn
+    trans = {(sval(case, p), rn.EPS if a == EPSID else aval(case, a), sval(case, q)) for p, a, q in case["trans"]}
+    if case["kind"] == "dfa":
+        if len(case["start"]) > 1 or len({(p, a) for p, a, _ in case["trans"]}) != len(case["trans"]):
+            return None
+    return rn.NFA([], [sval(case, x) for x in case["start"]], [sval(case, x) for x in case["final"]], trans,
+                  [aval(case, j) for j in case.get("extra", ())])
+
+
 def words_for(case, maxlen, foreign=True):
     """all words up to maxlen over the case's alphabet plus one foreign symbol (values)"""
     syms = [aval(case, j) for j in range(case["k"])] + [aval(case, j) for j in case.get("extra", ())]
